@@ -3,7 +3,6 @@ package engine
 import (
 	"encoding/hex"
 	"fmt"
-	"os"
 	"sort"
 	"testing"
 	"time"
@@ -37,9 +36,7 @@ func (c *enumCtx) overBudget() bool {
 }
 
 func (c *enumCtx) run(scn *Scenario) (*Run, *Judged) {
-	if c.job.Progress != "" {
-		os.WriteFile(c.job.Progress, []byte(fmt.Sprintf(`{"seed":%d,"profile":%q,"i":%d}`, scn.Seed, scn.Profile, c.n)), 0o644)
-	}
+	writeProgress(c.job.Progress, scn, c.n)
 	c.n++
 	r, jd := Exec(c.t, scn)
 	if r.Sim.Ambiguous > 0 {
@@ -290,13 +287,15 @@ func enumPlacements(c *enumCtx) {
 				singles = append(singles, func(s *Scenario) { s.UpFaults = append(s.UpFaults, uf) })
 			}
 		}
-		for _, f := range singles {
+		for fi, f := range singles {
 			if c.overBudget() {
 				c.out.Extra["budget_exhausted"] = 1
 				break
 			}
 			v := cloneScn(base)
 			f(v)
+			// "behaviour is the same with logging enabled at any level": the handler rotates over the placements
+			v.Logger = []string{"discard", "text", "json", "text-info"}[(fi+b)%4]
 			c.run(v)
 		}
 		// pairs: all when few sites, sampled otherwise
@@ -312,6 +311,7 @@ func enumPlacements(c *enumCtx) {
 			v := cloneScn(base)
 			singles[g.IntN(len(singles))](v)
 			singles[g.IntN(len(singles))](v)
+			v.Logger = []string{"discard", "text", "json", "text-info"}[p%4]
 			c.run(v)
 		}
 	}
